@@ -11,9 +11,10 @@ THEOREMS = ['insert_resolves', 'insert_stable', 'insert_existing', 'insert_fresh
             'ega_channel_idempotent', 'ega_palette_idempotent', 'ega_roundtrip_total',
             'export_import', 'export_import_hex', 'export_import_pal', 'export_import_gpl', 'export_import_ice',
             'export_import_txt', 'gpl_unfixed_regex_refuted']
-SWEEP_LEMMAS = ['PaletteProofs.chan63_sweep (256 byte values x 3 channels of the generated from63_*/to63_* and ega_* expressions)',
-                'PaletteFilesProofs.dec_sweep / dec_w3_sweep / hex2_sweep (print/parse of the 256 channel values through fmt_dec, fmt_dec_w3, fmt_hex2)',
-                'PaletteProofs.ega_tables_ok (generated EGA_COLOR_OFFSETS: 16 distinct offsets below 64 = length of EGA_PALETTE)']
+SWEEP_LEMMAS = ['PaletteProofs.chan63_sweep (256 byte values x 6 generated channel expression pairs: from63_*/to63_* and ega_from_*/ega_to_*)',
+                'PaletteFilesProofs.dec_sweep / hex2_sweep (print then parse of the 256 channel values through fmt_dec / parse_u32 and fmt_hex2 / hex2)',
+                'PaletteFilesProofs.class_sweep (generated \\d / \\s tables and comment characters on the 103 code points up to f)',
+                'PaletteEgaProofs.ega_tables_ok (generated EGA_COLOR_OFFSETS: 16 distinct offsets below 64 = length of EGA_PALETTE)']
 TRUSTED = ['Coq 8.16.1 kernel + vm_compute (finite sweeps, model evaluation); no axioms (Print Assumptions: closed)',
            'translator/gen_palette.py + vlib/rustsrc.py: tokenizer, template matcher, integer-expression translator (u8/u32 width semantics), '
            'format!-string parser ({} {:3} {:02x} {name} on unsigned integers and Strings)',
